@@ -93,10 +93,41 @@ def statement_hashes(props_file):
     return out
 
 
-def audit_sources():
-    """forbidden vernacular anywhere in the development (comments stripped)"""
+def coq_closure(pid):
+    """the .v files Props/<pid>.v transitively depends on (from coq_makefile's .Makefile.d), plus its extraction file"""
+    dep = COQ / ".Makefile.d"
+    deps = {}
+    if dep.exists():
+        for line in dep.read_text().replace("\\\n", " ").splitlines():
+            if ":" not in line:
+                continue
+            lhs, rhs = line.split(":", 1)
+            targets = [t for t in lhs.split() if t.endswith(".vo")]
+            srcs = [d[:-1] for d in rhs.split() if d.endswith(".vo")]
+            for t in targets:
+                deps.setdefault(t[:-1], set()).update(srcs)
+    start = f"theories/Props/{pid}.v"
+    seen, todo = set(), [start]
+    while todo:
+        f = todo.pop()
+        if f in seen:
+            continue
+        seen.add(f)
+        todo.extend(deps.get(f, ()))
+    files = [COQ / f for f in seen if (COQ / f).exists()]
+    ex = COQ / "extract" / f"{pid}.v"
+    if ex.exists():
+        files.append(ex)
+    if len(files) <= 1:   # no dependency information: fall back to everything
+        files = list((COQ / "theories").rglob("*.v")) + list((COQ / "extract").glob("*.v"))
+    return sorted(set(files))
+
+
+def audit_sources(pid=None):
+    """forbidden vernacular in the property's dependency closure (comments stripped)"""
     bad = []
-    for f in list((COQ / "theories").rglob("*.v")) + list((COQ / "extract").glob("*.v")):
+    files = coq_closure(pid) if pid else list((COQ / "theories").rglob("*.v")) + list((COQ / "extract").glob("*.v"))
+    for f in files:
         txt = re.sub(r"\(\*.*?\*\)", " ", f.read_text(), flags=re.S)
         for i, line in enumerate(txt.splitlines(), 1):
             if FORBIDDEN.search(line):
@@ -147,7 +178,8 @@ def proof_stage(pid, tier, extra_targets=()):
     if rc != 0:
         info["problems"].append("coq build failed: " + out[-1500:])
         return info
-    bad = audit_sources()
+    bad = audit_sources(pid)
+    info["audited_files"] = [str(f.relative_to(COQ)) for f in coq_closure(pid)]
     if bad:
         info["problems"].append("forbidden vernacular: " + "; ".join(bad[:10]))
     blocks = parse_assumptions(out, theorems)
@@ -437,6 +469,7 @@ class Ctx:
             "theorems": pr.get("theorems", []),
             "axioms_per_theorem": pr.get("axioms", {}),
             "proof_problems": pr.get("problems", []),
+            "audited_coq_files": pr.get("audited_files", []),
             "known_findings_hit": self.known_hits,
         })
         if "coqchk_axioms" in pr:
